@@ -357,6 +357,17 @@ type ChunkReader struct {
 	currNode rNode
 }
 
+// readFull is like io.ReadFull(r.readSeeker, p) except that it never returns
+// io.EOF: a RAC file that ends before its CompressedSize is not a clean end of
+// the list of chunks (which is what NextChunk and Reader.Read use io.EOF for).
+func (r *ChunkReader) readFull(p []byte) error {
+	_, err := io.ReadFull(r.readSeeker, p)
+	if err == io.EOF {
+		err = io.ErrUnexpectedEOF
+	}
+	return err
+}
+
 func (r *ChunkReader) checkParameters() error {
 	if r.ReadSeeker == nil {
 		r.err = errInvalidReadSeeker
@@ -408,7 +419,7 @@ func (r *ChunkReader) findRootNode() error {
 		r.err = err
 		return err
 	}
-	if _, err := io.ReadFull(r.readSeeker, r.currNode[:4]); err != nil {
+	if err := r.readFull(r.currNode[:4]); err != nil {
 		r.err = err
 		return err
 	}
@@ -429,7 +440,7 @@ func (r *ChunkReader) findRootNode() error {
 		r.err = err
 		return err
 	}
-	if _, err := io.ReadFull(r.readSeeker, r.currNode[:1]); err != nil {
+	if err := r.readFull(r.currNode[:1]); err != nil {
 		r.err = err
 		return err
 	}
@@ -483,7 +494,7 @@ func (r *ChunkReader) load(cOffset int64, arity uint8) error {
 		r.err = err
 		return err
 	}
-	if _, err := io.ReadFull(r.readSeeker, r.currNode[:size]); err != nil {
+	if err := r.readFull(r.currNode[:size]); err != nil {
 		r.err = err
 		return err
 	}
@@ -502,7 +513,7 @@ func (r *ChunkReader) loadAndValidate(cOffset int64,
 		r.err = err
 		return err
 	}
-	if _, err := io.ReadFull(r.readSeeker, r.currNode[:4]); err != nil {
+	if err := r.readFull(r.currNode[:4]); err != nil {
 		r.err = err
 		return err
 	}
